@@ -239,6 +239,7 @@ def shallow_copy(it, m: Mat):
     c = Mat(m.rows, m.cols, m.entry, name=m.name, region=m.region, fmt=m.fmt, transposed_of=m.transposed_of)
     c.__dict__.update({k: v for k, v in m.__dict__.items() if k not in ("rows", "cols")})
     c.copy_of = m
+    c.container_region = "FRESH"  # copy.copy: a new container around the SAME index / data arrays
     return c
 
 
@@ -509,6 +510,12 @@ def mat_setdiag(it, m: Mat, vals, k=0):
             region = getattr(m, "container_region", m.region)
 
         hook(it, _Container, None, None, "spmatrix.setdiag")
+        if m.fmt != "coo":
+            # csr / csc: diagonal entries that are already stored are overwritten IN the existing data array
+            class _Data:
+                region = m.region
+
+            hook(it, _Data, None, None, "spmatrix.setdiag(in-place on .data)")
     e0 = entry_fn(it, m)
     vv = _vec_of(vals) if not isinstance(vals, (int, float)) and not z3.is_expr(vals) else None
     val = (lambda i: ops._real(vv.f(i))) if vv is not None else (lambda i: ops._real(vals))
